@@ -34,6 +34,8 @@ class FixedModel(object):
     def at(self, ts):
         return (self.off, self.name, False)
 
+    raw_at = at
+
     def preimages(self, wall):
         return [wall - self.off]
 
@@ -54,7 +56,7 @@ class TzifModel(object):
     def at(self, ts):
         return self.rz.type_at(ts) if self.claimed(ts) else None
 
-    def at_tuple(self, ts):
+    def raw_at(self, ts):
         t = self.rz.type_at(ts)
         return (t[0], t[2], t[1])
 
@@ -84,6 +86,8 @@ class PosixModel(object):
 
     def at(self, ts):
         return self.pz.at(to_dt(ts))
+
+    raw_at = at
 
     def preimages(self, wall):
         return [to_ts(u) for u in self.pz.preimages(to_dt(wall))]
